@@ -52,6 +52,15 @@ class SymField(SymInt):
         self.index = index
 
 
+class SymBitLength(object):
+    """t.bit_length() of a symbolic integer t."""
+    def __init__(self, of):
+        self.of = of
+
+    def __repr__(self):
+        return '%r.bit_length()' % (self.of,)
+
+
 class SymExpr(object):
     def __init__(self, op, args):
         self.op = op
@@ -329,6 +338,11 @@ class CodecInterp(Interp):
 
     def compare(self, op, a, b, node):
         opn = type(op).__name__
+        if isinstance(a, SymBitLength) and isinstance(b, int) and not isinstance(b, bool) and opn in ('Gt', 'GtE', 'Lt', 'LtE'):
+            # t.bit_length() > n  <=>  |t| >= 2**n
+            n = b if opn in ('Gt', 'LtE') else b - 1
+            big = (n < 0) or self.sym_compare(a.of, 'GtE', 2 ** n) or self.sym_compare(a.of, 'LtE', -(2 ** n))
+            return big if opn in ('Gt', 'GtE') else not big
         if opn in self.NEG:
             if isinstance(a, SymInt) and isinstance(b, int):
                 return self.sym_compare(a, opn, b)
@@ -437,6 +451,10 @@ class CodecInterp(Interp):
         return Interp.iterate(self, v)
 
     def getattr(self, v, attr, node=None):
+        if isinstance(v, SymInt) and attr == 'bit_length':
+            return Native('int.bit_length', lambda it, a, k: SymBitLength(v))
+        if isinstance(v, int) and not isinstance(v, bool) and attr in ('bit_length', 'to_bytes'):
+            return Native('int.%s' % attr, lambda it, a, k, _m=getattr(v, attr): _m(*a, **k), False)
         if isinstance(v, SymStr) and attr == 'encode':
             return Native('str.encode', lambda it, a, k: SymPayload('the encoded string', SymInt('L', 0, BIG)))
         if isinstance(v, SymMap) and attr == 'items':
